@@ -92,8 +92,8 @@ SAFE_BUILTINS: dict[str, Callable] = {
     "chain": lambda *its: [x for it in its for x in it],  # itertools.chain
 }
 STR_METHODS = {"lower", "upper", "startswith", "endswith", "casefold", "isalpha", "swapcase", "isascii", "isdigit", "isalnum", "isupper", "islower", "strip", "lstrip", "rstrip", "split", "replace", "find", "rfind", "count", "index", "splitlines", "rsplit", "join", "encode", "isspace", "title", "zfill", "ljust", "rjust", "center", "partition", "rpartition", "expandtabs", "format"}
-LIST_METHODS = {"append", "extend", "pop", "sort", "clear", "insert", "index", "copy"}
-SET_METHODS = {"add", "update", "discard", "copy"}
+LIST_METHODS = {"append", "extend", "pop", "sort", "clear", "insert", "index", "copy", "reverse", "count", "remove"}
+SET_METHODS = {"add", "update", "discard", "copy", "remove", "clear", "union", "intersection", "difference", "issubset", "issuperset", "isdisjoint"}
 
 
 class Ev:
@@ -358,7 +358,20 @@ class Ev:
             if f.id == "isinstance":
                 obj = self.ev(n.args[0])
                 spec = n.args[1]
-                names = [ast.unparse(e) for e in spec.elts] if isinstance(spec, ast.Tuple) else [ast.unparse(spec)]
+                prim_names = ("str", "int", "list", "tuple", "dict", "set", "bool", "frozenset", "float", "bytes", "type", "object")
+                names = []
+                for e in (spec.elts if isinstance(spec, ast.Tuple) else [spec]):
+                    text = ast.unparse(e)
+                    val = self.env.get(e.id, _MISSING) if isinstance(e, ast.Name) else _MISSING
+                    cls_of = getattr(val, "_sa_class", None)
+                    if cls_of is not None:
+                        names.append(cls_of)  # a class of the program model, possibly through a variable (cls = TABLE[kind])
+                    elif val is _MISSING or text in prim_names or isinstance(val, (Sym,)) or val is None:
+                        names.append(text.split(".")[-1] if "." in text and val is _MISSING else text)
+                    elif isinstance(val, tuple) and all(getattr(x, "_sa_class", None) for x in val):
+                        names.extend(x._sa_class for x in val)  # noqa: SLF001
+                    else:
+                        raise self.bad(n, "isinstance against a value the model cannot name as a class")
                 if isinstance(obj, Obj):
                     return any(k in names for k in obj.kinds)
                 prim = {"str": str, "int": int, "list": list, "tuple": tuple, "dict": dict, "set": set, "bool": bool, "frozenset": frozenset}
